@@ -40,6 +40,8 @@ class Case:
 
     # ---- packages -------------------------------------------------------
     def pkgs(self):
+        if self.case.get('fam') == 'F':
+            return ['a', 'b']
         s = {'a'}
         for a in self.P['atoms']:
             s.add(a['pkg'])
@@ -376,6 +378,8 @@ class Case:
                 % (self.pkgname, self.imports('a', used, extra), ''.join(out), '\n'.join(body)))
 
     def files(self, runtime=True):
+        if self.case.get('fam') == 'F':
+            return front_files(self)
         fs = {}
         for pkg in self.pkgs():
             d = self.pkgdir(pkg)
@@ -390,6 +394,165 @@ class Case:
             fs[self.dir + '/' + n] = txt
         fs[self.dir + '/drive.go'] = self.drive_file(runtime)
         return fs
+
+
+FRONT_LIB = '''package %(pkg)s
+
+import (
+	"unsafe"
+
+	"github.com/google/wire"
+)
+
+type T1 struct {
+	A int
+	B string
+}
+type T2 struct{ X int }
+type I1 interface{ M() }
+
+func (T1) M()  {}
+func (*T2) M() {}
+
+type G1[X any] struct{ V X }
+
+func GF[X any]() X { var z X; return z }
+func F1() T1       { return T1{} }
+func F2(t T1) T2   { return T2{} }
+func mkSet() wire.ProviderSet { return wire.NewSet(F1) }
+func mkT() *T1                { return &T1{} }
+func pair() (int, wire.ProviderSet) { return 1, wire.NewSet(F1) }
+
+var SetV = wire.NewSet(F1)
+var AliasSet = SetV
+var intVar = 7
+
+const constC = 3
+
+var tv = T1{}
+var ptrT = &tv
+var pptr = &ptrT
+var anyv interface{} = tv
+var arr = []func() T1{F1}
+var up = unsafe.Pointer(ptrT)
+
+const fieldConst = "A"
+
+var fieldVar = "A"
+var names = []string{"A"}
+'''
+FRONT_B = '''package b
+
+import "github.com/google/wire"
+
+type U1 struct{ A int }
+
+func NewU1() U1 { return U1{} }
+
+var SetB = wire.NewSet(NewU1)
+'''
+FRONT_EXPR = {
+    'func': 'F1', 'setvar': 'SetV', 'intvar': 'intVar', 'const': 'constC', 'nil': 'nil', 'int-literal': '42', 'string-literal': '"x"',
+    'new-named': 'new(T1)', 'new-anon-struct': 'new(struct{ A int })', 'new-ptr': 'new(*T1)', 'new-int': 'new(int)', 'new-iface': 'new(I1)',
+    'new-generic': 'new(G1[int])', 'addr-of-var': '&tv', 'ptr-var': 'ptrT', 'nil-conversion': '(*T1)(nil)', 'iface-nil-conversion': '(*I1)(nil)',
+    'parenthesized-func': '(F1)', 'parenthesized-new': '(new(T1))', 'conversion': 'int64(3)', 'func-literal': 'func() T1 { return T1{} }',
+    'method-value': 'tv.M', 'generic-func': 'GF[int]', 'composite-literal': '[]int{1}', 'struct-literal': 'T1{}', 'call-result': 'mkT()',
+    'set-call-result': 'mkSet()', 'field-of-struct-value': 'tv.A', 'index-expr': 'arr[0]', 'star-deref': '*ptrT', 'type-assertion': 'anyv.(T1)',
+    'new-named-other-pkg': 'new(b.U1)', 'set-other-pkg': 'b.SetB', 'aliased-set-var': 'AliasSet', 'new-slice': 'new([]int)', 'new-map': 'new(map[string]int)',
+    'new-chan': 'new(chan int)', 'new-func': 'new(func())', 'new-array': 'new([2]int)', 'unsafe-ptr': 'up',
+}
+FRONT_FIELD = {'literal': '"A"', 'const': 'fieldConst', 'var': 'fieldVar', 'concat': '"A" + ""', 'raw-string': '`A`', 'spread': 'names...',
+               'star-mixed': '"*", "A"', 'empty': '""', 'int-literal': 'string(rune(65))', 'duplicate': '"A", "A"'}
+
+
+def front_files(rc):
+    fr = rc.P['front']
+    pos, form = fr['pos'], fr['form']
+    pkg = rc.pkgname
+    imp = '\t"github.com/google/wire"\n'
+    pre = ''
+    body = None
+    sig = 'func Inject() T1'
+    ret = '\treturn T1{}\n'
+    if pos != 'special':
+        E = FRONT_EXPR.get(form)
+        FF = FRONT_FIELD.get(form)
+        call = {
+            'Build.item': 'wire.Build(%s)' % E,
+            'NewSet.item': 'wire.Build(wire.NewSet(%s))' % E,
+            'Struct.type': 'wire.Build(wire.Struct(%s, "A"))' % E,
+            'Struct.field': 'wire.Build(wire.Struct(new(T1), %s))' % FF,
+            'FieldsOf.type': 'wire.Build(wire.FieldsOf(%s, "A"))' % E,
+            'FieldsOf.field': 'wire.Build(F1, wire.FieldsOf(new(T1), %s))' % FF,
+            'Bind.iface': 'wire.Build(F1, wire.Bind(%s, new(T1)))' % E,
+            'Bind.impl': 'wire.Build(F1, wire.Bind(new(I1), %s))' % E,
+            'Value.expr': 'wire.Build(wire.Value(%s))' % E,
+            'InterfaceValue.iface': 'wire.Build(wire.InterfaceValue(%s, tv))' % E,
+            'InterfaceValue.expr': 'wire.Build(wire.InterfaceValue(new(I1), %s))' % E,
+        }[pos]
+        if 'b.' in call:
+            imp += '\tb "%s"\n' % rc.pkgpath('b')
+        body = '\t' + call + '\n' + ret
+    else:
+        W = 'wire.'
+        if form == 'dot-import-bind':
+            imp = '\t. "github.com/google/wire"\n'
+            sig, body = 'func Inject() I1', '\tBuild(F1, Bind(new(I1), new(T1)))\n\treturn nil\n'
+        elif form == 'dot-import-build':
+            imp = '\t. "github.com/google/wire"\n'
+            body = '\tBuild(F1)\n' + ret
+        elif form == 'alias-import':
+            imp = '\tw "github.com/google/wire"\n'
+            sig, body = 'func Inject() I1', '\tw.Build(F1, w.Bind(new(I1), new(T1)))\n\treturn nil\n'
+        elif form == 'multi-assign-set-var':
+            pre = 'var xx, PairSet = pair()\n\n'
+            body = '\t_ = xx\n\twire.Build(PairSet)\n' + ret
+            body = '\twire.Build(PairSet)\n' + ret
+        elif form == 'multi-name-set-var':
+            pre = 'var SA, SB = wire.NewSet(F1), wire.NewSet(F2)\n\n'
+            sig, body = 'func Inject() T2', '\twire.Build(SA, SB)\n\treturn T2{}\n'
+        elif form == 'build-no-args':
+            body = '\twire.Build()\n' + ret
+        elif form == 'build-twice':
+            body = '\twire.Build(F1)\n\twire.Build(F1)\n' + ret
+        elif form == 'build-not-first':
+            body = '\tx := 1\n\t_ = x\n\twire.Build(F1)\n' + ret
+        elif form == 'generic-injector':
+            sig, body = 'func Inject[X any]() T1', '\twire.Build(F1)\n' + ret
+        elif form == 'set-var-no-value':
+            pre = 'var EmptySet wire.ProviderSet\n\n'
+            body = '\twire.Build(F1, EmptySet)\n' + ret
+        elif form == 'set-var-composite':
+            pre = 'var LitSet = wire.ProviderSet{}\n\n'
+            body = '\twire.Build(F1, LitSet)\n' + ret
+        elif form == 'struct-no-fields':
+            body = '\twire.Build(wire.Struct(new(T1)))\n' + ret
+        elif form == 'fieldsof-no-names':
+            body = '\twire.Build(F1, wire.FieldsOf(new(T1)))\n' + ret
+        elif form == 'fieldsof-too-many':
+            sig, body = 'func Inject() int', '\twire.Build(F1, wire.FieldsOf(new(T1), "A", "B", "A"))\n\treturn 0\n'
+        elif form == 'newset-of-newset':
+            body = '\twire.Build(wire.NewSet(wire.NewSet(F1)))\n' + ret
+        elif form == 'build-of-build':
+            body = '\twire.Build(wire.Build(F1))\n' + ret
+        elif form == 'struct-of-pointer-pointer':
+            body = '\twire.Build(wire.Struct(new(*T1), "A"))\n' + ret
+        elif form == 'fieldsof-ptr-ptr-ptr':
+            sig, body = 'func Inject() int', '\twire.Build(F1, wire.FieldsOf(new(**T1), "A"))\n\treturn 0\n'
+        elif form == 'bind-ptr-ptr':
+            sig, body = 'func Inject() I1', '\twire.Build(wire.Bind(new(I1), new(**T2)))\n\treturn nil\n'
+        elif form == 'build-in-panic':
+            body = '\tpanic(wire.Build(F1))\n'
+        elif form == 'build-in-return':
+            sig, body = 'func Inject() string', '\treturn wire.Build(F1)\n'
+        elif form == 'injector-no-result':
+            sig, body = 'func Inject()', '\twire.Build(F1)\n'
+        elif form == 'injector-four-results':
+            sig, body = 'func Inject() (T1, func(), error, int)', '\twire.Build(F1)\n\treturn T1{}, nil, nil, 0\n'
+        else:
+            raise ValueError(form)
+    wire_go = ('//go:build wireinject\n// +build wireinject\n\npackage %s\n\nimport (\n%s)\n\n%s%s {\n%s}\n' % (pkg, imp, pre, sig, body))
+    return {rc.dir + '/lib.go': FRONT_LIB % {'pkg': pkg}, rc.dir + '/b/b.go': FRONT_B, rc.dir + '/wire.go': wire_go}
 
 
 def write_files(root, fs):
